@@ -1182,7 +1182,22 @@ func ruleX3(c *Ctx) {
 				}
 			}
 		})
-		c.check(okText, funcName(fn)+" token text", fn.Pos(), "Text = input[start:pos]", "token text is not input[start:pos]")
+		// the value stored in the token's Text field is that slice itself, not something computed from it
+		wrapped := ""
+		allInstrs(fn, func(in ssa.Instruction) {
+			st, ok := in.(*ssa.Store)
+			if !ok {
+				return
+			}
+			fa, ok := st.Addr.(*ssa.FieldAddr)
+			if !ok || !isNamed(fa.X.Type(), modPath+"/bql/lexer", "Token") || fieldName(fa.X.Type(), fa.Field) != "Text" {
+				return
+			}
+			if _, isSlice := st.Val.(*ssa.Slice); !isSlice {
+				wrapped = truncate(c.term(st.Val), 80)
+			}
+		})
+		c.check(okText && wrapped == "", funcName(fn)+" token text", fn.Pos(), "Text = input[start:pos]", "token text is not input[start:pos]"+map[bool]string{true: " but " + wrapped + ": the emitted text is no longer a substring of the input", false: ""}[wrapped != ""])
 	}
 	// next guards the decode with pos >= len(input)
 	{
